@@ -34,6 +34,27 @@ pub struct Ctx {
     pub cand: Option<u64>,
 }
 
+/// wall-clock watchdog: a case running longer than the limit ends the process with
+/// exit code 3 (inconclusive, never a violation); the orchestrator resumes after it
+pub static CASE_START_MS: std::sync::atomic::AtomicU64 = std::sync::atomic::AtomicU64::new(0);
+static EPOCH: std::sync::OnceLock<Instant> = std::sync::OnceLock::new();
+
+fn now_ms() -> u64 {
+    EPOCH.get_or_init(Instant::now).elapsed().as_millis() as u64 + 1
+}
+
+pub fn start_watchdog(limit_s: u64) {
+    let _ = now_ms();
+    std::thread::spawn(move || loop {
+        std::thread::sleep(std::time::Duration::from_millis(500));
+        let st = CASE_START_MS.load(std::sync::atomic::Ordering::Relaxed);
+        if st != 0 && now_ms().saturating_sub(st) > limit_s * 1000 {
+            println!("{}", json!({"k": "inconc", "what": "watchdog", "detail": {"limit_s": limit_s}}));
+            std::process::exit(3);
+        }
+    });
+}
+
 thread_local! {
     pub static LAST_PANIC: std::cell::RefCell<Option<(String, String)>> = const { std::cell::RefCell::new(None) };
 }
@@ -163,6 +184,7 @@ impl Ctx {
         if self.case_index <= self.resume_after {
             return false;
         }
+        CASE_START_MS.store(now_ms(), std::sync::atomic::Ordering::Relaxed);
         if let Some(j) = &mut self.journal {
             use std::os::unix::fs::FileExt;
             let mut s = serde_json::to_vec(&json!({"i": self.case_index, "case": case})).unwrap();
@@ -213,6 +235,7 @@ impl Ctx {
     }
 
     pub fn finish(self) {
+        CASE_START_MS.store(0, std::sync::atomic::Ordering::Relaxed);
         let viols: BTreeMap<String, u64> = self.viol_per_sig.clone();
         if let Some(d) = &self.out_dir {
             let mut f = std::fs::File::create(format!("{d}/fps.{}.{}", self.k.name(), self.shard)).expect("fps");
